@@ -75,7 +75,13 @@ theorem tight_dropE {w : W} (l : Lv w zero) (n : Nz w (some rid)) (cl : CurLive 
   have n1 := n.dropE_ex rid
   have n2 : Nz (w.dropE rid) none := n1.clear rid (fun hx => by
     have hdep : ((w.dropE rid).k.getR rid).depth = 0 := by rw [(dk_dropE w rid).depth rid hx]; exact hd
-    refine ⟨?_, fun hp => by omega, fun _ => hdep⟩
+    have hes : ((w.dropE rid).k.getR rid).eSched = none := by
+      have p : PK (·.eSched) (w.dropE rid) (w.modR rid (fun r => { r with eSched := none })) := by
+        unfold W.dropE; exact pk_unrefCheck ins_eSched _ _
+      rw [p.val rid hx]
+      show ((w.k.modRec rid _).getR rid).eSched = none
+      rw [getR_modRec_same _ _ _ (by intro _; rfl) hs.1]
+    refine ⟨?_, fun hp => by omega, fun _ => hdep, fun _ he => by rw [hes] at he; simp at he⟩
     unfold W.dropE at hx ⊢
     exact unrefCheck_pos _ rid hx)
   have gg : GoodG (w.dropE rid) := fun hg => ⟨lg hg, n2⟩
@@ -119,7 +125,7 @@ theorem tight_visitTimeout {w : W} (g : Good w) (cl : CurLive w.k) (hne : w.k.re
     · injection h with h
       subst h
       have u : RecsUp ((w.modR rid (fun r => { r with tChecked := r.tChecked + 1 })).addTimeOut rid).k w.k :=
-        (up_addTimeOut _ rid).trans (RecsUp.modRec _ rid _ (fun _ => rfl) (fun _ h => ⟨h.pos, h.hold, h.ended⟩))
+        (up_addTimeOut _ rid).trans (RecsUp.modRec _ rid _ (fun _ => rfl) (fun _ h => ⟨h.pos, h.hold, h.ended, h.fin⟩))
       have gg : GoodG ((w.modR rid (fun r => { r with tChecked := r.tChecked + 1 })).addTimeOut rid) := fun hg => ⟨lvg hg, g.nz.of_up u⟩
       refine ⟨gg, fun _ => recs_ne_of_ids u.ids hne, CurG.of_live cl ?_ gg⟩
       exact (dk_addTimeOut _ rid).trans (dk_modR w rid _ (by intro _; rfl) (by intro _; rfl))
@@ -138,13 +144,22 @@ theorem tight_visitExpire {w : W} (g : Good w) (cl : CurLive w.k) (hne : w.k.rec
   · rename_i hex
     injection h with h; rw [← h]
     exact tight_dropE g.lv (g.nz.weaken _) cl hne hs ((recFine_of g rid hs.1).ended hex)
-  · split at h
+  · rename_i hex
+    split at h
     · injection h with h
       subst h
-      have u : RecsUp ((w.modR rid (fun r => { r with eChecked := r.eChecked + 1 })).addExpried rid).k w.k :=
-        (up_addExpried _ rid).trans (RecsUp.modRec _ rid _ (fun _ => rfl) (fun _ h => ⟨h.pos, h.hold, h.ended⟩))
-      have gg : GoodG ((w.modR rid (fun r => { r with eChecked := r.eChecked + 1 })).addExpried rid) := fun hg => ⟨lvg hg, g.nz.of_up u⟩
-      refine ⟨gg, fun _ => recs_ne_of_ids u.ids hne, CurG.of_live cl ?_ gg⟩
+      have hdep : 0 < (w.k.getR rid).depth := by
+        apply Nat.pos_of_ne_zero
+        intro hz
+        exact hex ((recFine_of g rid hs.1).fin hz hs.2)
+      have n1 : Nz (w.modR rid (fun r => { r with eChecked := r.eChecked + 1 })) none :=
+        g.nz.of_up (RecsUp.modRec _ rid _ (fun _ => rfl) (fun _ h => ⟨h.pos, h.hold, h.ended, h.fin⟩))
+      have n2 := n1.addExpried_hold rid (fun _ => by
+        rw [modR_k, getR_modRec_proj (·.depth) w.k rid rid _ (by intro _; rfl) (by intro _; rfl)]; exact hdep)
+      have hids : ((w.modR rid (fun r => { r with eChecked := r.eChecked + 1 })).addExpried rid).k.ids = w.k.ids :=
+        (ids_addExpried _ rid).trans (ids_modRec _ rid _ (by intro _; rfl))
+      have gg : GoodG ((w.modR rid (fun r => { r with eChecked := r.eChecked + 1 })).addExpried rid) := fun hg => ⟨lvg hg, n2⟩
+      refine ⟨gg, fun _ => recs_ne_of_ids hids hne, CurG.of_live cl ?_ gg⟩
       exact (dk_addExpried _ rid).trans (dk_modR w rid _ (by intro _; rfl) (by intro _; rfl))
     · simp at h
 
@@ -162,7 +177,7 @@ theorem tight_fireTimeout {w : W} (g : Good w) (cl : CurLive w.k) (hne : w.k.rec
       l.modR rid _ (fun _ => rfl) (l.rc.modRec_plain rid _ (fun _ => rfl) (fun _ => rfl) (fun _ => rfl)) (by
         intro r _ _ hf; simp at hf)
     have n1 : Nz (w.modR rid (fun r => { r with timeouted := true })) none :=
-      g.nz.of_up (RecsUp.modRec _ rid _ (fun _ => rfl) (fun _ h => ⟨h.pos, h.hold, h.ended⟩))
+      g.nz.of_up (RecsUp.modRec _ rid _ (fun _ => rfl) (fun _ h => ⟨h.pos, h.hold, h.ended, h.fin⟩))
     have c1 := cl.of_dk (dk_modR w rid (fun r => { r with timeouted := true }) (by intro _; rfl) (by intro _; rfl)) l1
     have hh1 : (w.modR rid (fun r => { r with timeouted := true })).k.hasRec rid := (hasRec_modR _ rid rid _ (by intro _; rfl)).mpr hs.1
     have g1 : (w.modR rid (fun r => { r with timeouted := true })).k.getR rid = { (w.k.getR rid) with timeouted := true } :=
@@ -181,6 +196,58 @@ theorem tight_fireTimeout {w : W} (g : Good w) (cl : CurLive w.k) (hne : w.k.rec
       show ((w.modR rid (fun r => { r with timeouted := true })).k.settleWait.getR rid).tSched.isSome = true
       rw [k2.tSched]; exact ht1⟩
     exact (t4.ctr _).reply _ _ _ _
+
+/-- the end of a hold by the expiry sweep, up to the counters / notice / wake pass -/
+theorem tight_expire_release {w : W} (g : Good w) (cl : CurLive w.k) (rid : Nat) (hs : w.k.hasRec rid ∧ (w.k.getR rid).eSched.isSome = true) :
+    Tight (((((w.modR rid (fun r => { r with expried := true })).modK (fun k => { k with locked := k.locked - (w.k.getR rid).depth })).when (w.k.getR rid).isAof
+      (·.pushUnLockAof rid (w.k.getR rid).cmd false false AOF_EXPRIED)).modK (·.removeLock rid)).dropE rid) := by
+  have l := g.lv
+  have l1 : Lv (w.modR rid (fun r => { r with expried := true })) zero :=
+    l.modR_plain rid _ (fun _ => rfl) (fun _ => rfl) (fun _ => rfl) (fun _ => rfl) (fun _ => rfl)
+  have n1 : Nz (w.modR rid (fun r => { r with expried := true })) (some rid) := (g.nz.weaken (some rid)).modR_ex rid _ (by intro _; rfl)
+  have c1 := cl.of_dk (dk_modR w rid (fun r => { r with expried := true }) (by intro _; rfl) (by intro _; rfl)) l1
+  have hh1 : (w.modR rid (fun r => { r with expried := true })).k.hasRec rid := (hasRec_modR _ rid rid _ (by intro _; rfl)).mpr hs.1
+  have g1 : (w.modR rid (fun r => { r with expried := true })).k.getR rid = { (w.k.getR rid) with expried := true } :=
+    getR_modRec_same _ _ _ (fun _ => rfl) hs.1
+  have l2 : Lv ((w.modR rid (fun r => { r with expried := true })).modK (fun k => { k with locked := k.locked - (w.k.getR rid).depth })) zero :=
+    l1.modK _ (l1.rc.transfer rfl rfl (fun _ => rfl)) (RecsLe.of_eq rfl)
+  have n2 : Nz ((w.modR rid (fun r => { r with expried := true })).modK (fun k => { k with locked := k.locked - (w.k.getR rid).depth })) (some rid) :=
+    n1.modK_eq _ rfl
+  have c2 : CurLive ((w.modR rid (fun r => { r with expried := true })).modK (fun k => { k with locked := k.locked - (w.k.getR rid).depth })).k := c1
+  have l3 : Lv (((w.modR rid (fun r => { r with expried := true })).modK (fun k => { k with locked := k.locked - (w.k.getR rid).depth })).when
+      (w.k.getR rid).isAof (·.pushUnLockAof rid (w.k.getR rid).cmd false false AOF_EXPRIED)) zero :=
+    l2.when _ _ (l2.pushUnLockAof _ _ _ _ _)
+  have n3 : Nz (((w.modR rid (fun r => { r with expried := true })).modK (fun k => { k with locked := k.locked - (w.k.getR rid).depth })).when
+      (w.k.getR rid).isAof (·.pushUnLockAof rid (w.k.getR rid).cmd false false AOF_EXPRIED)) (some rid) :=
+    n2.of_up (up_when _ _ (·.pushUnLockAof rid (w.k.getR rid).cmd false false AOF_EXPRIED) (up_pushUnLockAof _ _ _ _ _ _))
+  have c3 := c2.of_dk (dk_when _ (w.k.getR rid).isAof (·.pushUnLockAof rid (w.k.getR rid).cmd false false AOF_EXPRIED)
+    (dk_pushUnLockAof _ _ _ _ _ _)) l3
+  have hk3 : (((w.modR rid (fun r => { r with expried := true })).modK (fun k => { k with locked := k.locked - (w.k.getR rid).depth })).when
+      (w.k.getR rid).isAof (·.pushUnLockAof rid (w.k.getR rid).cmd false false AOF_EXPRIED)).k.hasRec rid ∧
+      ((((w.modR rid (fun r => { r with expried := true })).modK (fun k => { k with locked := k.locked - (w.k.getR rid).depth })).when
+      (w.k.getR rid).isAof (·.pushUnLockAof rid (w.k.getR rid).cmd false false AOF_EXPRIED)).k.getR rid).eSched.isSome = true := by
+    unfold W.when
+    split
+    · refine ⟨(hasRec_of_ids (ids_pushUnLockAof _ _ _ _ _ _) rid).mpr hh1, ?_⟩
+      have := pushUnLockAof_eSched ((w.modR rid (fun r => { r with expried := true })).modK (fun k => { k with locked := k.locked - (w.k.getR rid).depth }))
+        rid (w.k.getR rid).cmd false false AOF_EXPRIED rid
+      rw [this]; show ((w.modR rid (fun r => { r with expried := true })).k.getR rid).eSched.isSome = true
+      rw [g1]; exact hs.2
+    · exact ⟨hh1, by show ((w.modR rid (fun r => { r with expried := true })).k.getR rid).eSched.isSome = true; rw [g1]; exact hs.2⟩
+  have l4 := l3.modK (·.removeLock rid) (removeLock_rc zero_nonneg l3.rc rid) (RecsLe.removeLock _ _)
+  have n4 : Nz ((((w.modR rid (fun r => { r with expried := true })).modK (fun k => { k with locked := k.locked - (w.k.getR rid).depth })).when
+      (w.k.getR rid).isAof (·.pushUnLockAof rid (w.k.getR rid).cmd false false AOF_EXPRIED)).modK (·.removeLock rid)) (some rid) := by
+    have := nz_removeLock n3.nd rid n3.nz
+    exact ⟨this.1, this.2⟩
+  have c4 : CurLive ((((w.modR rid (fun r => { r with expried := true })).modK (fun k => { k with locked := k.locked - (w.k.getR rid).depth })).when
+      (w.k.getR rid).isAof (·.pushUnLockAof rid (w.k.getR rid).cmd false false AOF_EXPRIED)).modK (·.removeLock rid)).k :=
+    CurLive.removeLock c3 rid (hasRec_current l4)
+  obtain ⟨m1, m2, _⟩ := removeLock_keep zero_nonneg l3.rc rid rid hk3.1 (wheel_of_e hk3.2)
+  have t5 := tight_dropE l4 n4 c4 (recs_ne_of_hasRec m1) ⟨m1, by
+    show ((((w.modR rid (fun r => { r with expried := true })).modK (fun k => { k with locked := k.locked - (w.k.getR rid).depth })).when
+      (w.k.getR rid).isAof (·.pushUnLockAof rid (w.k.getR rid).cmd false false AOF_EXPRIED)).k.removeLock rid |>.getR rid).eSched.isSome = true
+    rw [m2]; exact hk3.2⟩ (removeLock_depth _ rid m1)
+  exact t5
 
 theorem tight_fireExpire {w : W} (g : Good w) (cl : CurLive w.k) (hne : w.k.recs ≠ []) (rid : Nat) : Tight (w.fireExpire rid) := by
   have l := g.lv
@@ -201,56 +268,19 @@ theorem tight_fireExpire {w : W} (g : Good w) (cl : CurLive w.k) (hne : w.k.recs
     · -- deferral: the entry is pushed again
       rename_i hdf
       simp only [hdf, if_true] at lvg
-      have u : RecsUp ((w.modR rid (fun r => { r with expT := w.db.now + 30 })).addExpried rid).k w.k :=
-        (up_addExpried _ rid).trans (RecsUp.modRec _ rid _ (fun _ => rfl) (fun _ h => ⟨h.pos, h.hold, h.ended⟩))
-      have gg : GoodG ((w.modR rid (fun r => { r with expT := w.db.now + 30 })).addExpried rid) := fun hg => ⟨lvg hg, g.nz.of_up u⟩
-      refine ⟨gg, fun _ => recs_ne_of_ids u.ids hne, CurG.of_live cl ?_ gg⟩
+      have hdep : 0 < (w.k.getR rid).depth := by
+        apply Nat.pos_of_ne_zero
+        intro hz
+        exact hex ((recFine_of g rid hs.1).fin hz hs.2)
+      have n1 : Nz (w.modR rid (fun r => { r with expT := w.db.now + 30 })) none :=
+        g.nz.of_up (RecsUp.modRec _ rid _ (fun _ => rfl) (fun _ h => ⟨h.pos, h.hold, h.ended, h.fin⟩))
+      have n2 := n1.addExpried_hold rid (fun _ => by
+        rw [modR_k, getR_modRec_proj (·.depth) w.k rid rid _ (by intro _; rfl) (by intro _; rfl)]; exact hdep)
+      have hids : ((w.modR rid (fun r => { r with expT := w.db.now + 30 })).addExpried rid).k.ids = w.k.ids :=
+        (ids_addExpried _ rid).trans (ids_modRec _ rid _ (by intro _; rfl))
+      have gg : GoodG ((w.modR rid (fun r => { r with expT := w.db.now + 30 })).addExpried rid) := fun hg => ⟨lvg hg, n2⟩
+      refine ⟨gg, fun _ => recs_ne_of_ids hids hne, CurG.of_live cl ?_ gg⟩
       exact (dk_addExpried _ rid).trans (dk_modR w rid _ (by intro _; rfl) (by intro _; rfl))
-    · have l1 : Lv (w.modR rid (fun r => { r with expried := true })) zero :=
-        l.modR_plain rid _ (fun _ => rfl) (fun _ => rfl) (fun _ => rfl) (fun _ => rfl) (fun _ => rfl)
-      have n1 : Nz (w.modR rid (fun r => { r with expried := true })) (some rid) := (g.nz.weaken (some rid)).modR_ex rid _ (by intro _; rfl)
-      have c1 := cl.of_dk (dk_modR w rid (fun r => { r with expried := true }) (by intro _; rfl) (by intro _; rfl)) l1
-      have hh1 : (w.modR rid (fun r => { r with expried := true })).k.hasRec rid := (hasRec_modR _ rid rid _ (by intro _; rfl)).mpr hs.1
-      have g1 : (w.modR rid (fun r => { r with expried := true })).k.getR rid = { (w.k.getR rid) with expried := true } :=
-        getR_modRec_same _ _ _ (fun _ => rfl) hs.1
-      have l2 : Lv ((w.modR rid (fun r => { r with expried := true })).modK (fun k => { k with locked := k.locked - (w.k.getR rid).depth })) zero :=
-        l1.modK _ (l1.rc.transfer rfl rfl (fun _ => rfl)) (RecsLe.of_eq rfl)
-      have n2 : Nz ((w.modR rid (fun r => { r with expried := true })).modK (fun k => { k with locked := k.locked - (w.k.getR rid).depth })) (some rid) :=
-        n1.modK_eq _ rfl
-      have c2 : CurLive ((w.modR rid (fun r => { r with expried := true })).modK (fun k => { k with locked := k.locked - (w.k.getR rid).depth })).k := c1
-      have l3 : Lv (((w.modR rid (fun r => { r with expried := true })).modK (fun k => { k with locked := k.locked - (w.k.getR rid).depth })).when
-          (w.k.getR rid).isAof (·.pushUnLockAof rid (w.k.getR rid).cmd false false AOF_EXPRIED)) zero :=
-        l2.when _ _ (l2.pushUnLockAof _ _ _ _ _)
-      have n3 : Nz (((w.modR rid (fun r => { r with expried := true })).modK (fun k => { k with locked := k.locked - (w.k.getR rid).depth })).when
-          (w.k.getR rid).isAof (·.pushUnLockAof rid (w.k.getR rid).cmd false false AOF_EXPRIED)) (some rid) :=
-        n2.of_up (up_when _ _ (·.pushUnLockAof rid (w.k.getR rid).cmd false false AOF_EXPRIED) (up_pushUnLockAof _ _ _ _ _ _))
-      have c3 := c2.of_dk (dk_when _ (w.k.getR rid).isAof (·.pushUnLockAof rid (w.k.getR rid).cmd false false AOF_EXPRIED)
-        (dk_pushUnLockAof _ _ _ _ _ _)) l3
-      have hk3 : (((w.modR rid (fun r => { r with expried := true })).modK (fun k => { k with locked := k.locked - (w.k.getR rid).depth })).when
-          (w.k.getR rid).isAof (·.pushUnLockAof rid (w.k.getR rid).cmd false false AOF_EXPRIED)).k.hasRec rid ∧
-          ((((w.modR rid (fun r => { r with expried := true })).modK (fun k => { k with locked := k.locked - (w.k.getR rid).depth })).when
-          (w.k.getR rid).isAof (·.pushUnLockAof rid (w.k.getR rid).cmd false false AOF_EXPRIED)).k.getR rid).eSched.isSome = true := by
-        unfold W.when
-        split
-        · refine ⟨(hasRec_of_ids (ids_pushUnLockAof _ _ _ _ _ _) rid).mpr hh1, ?_⟩
-          have := pushUnLockAof_eSched ((w.modR rid (fun r => { r with expried := true })).modK (fun k => { k with locked := k.locked - (w.k.getR rid).depth }))
-            rid (w.k.getR rid).cmd false false AOF_EXPRIED rid
-          rw [this]; show ((w.modR rid (fun r => { r with expried := true })).k.getR rid).eSched.isSome = true
-          rw [g1]; exact hs.2
-        · exact ⟨hh1, by show ((w.modR rid (fun r => { r with expried := true })).k.getR rid).eSched.isSome = true; rw [g1]; exact hs.2⟩
-      have l4 := l3.modK (·.removeLock rid) (removeLock_rc zero_nonneg l3.rc rid) (RecsLe.removeLock _ _)
-      have n4 : Nz ((((w.modR rid (fun r => { r with expried := true })).modK (fun k => { k with locked := k.locked - (w.k.getR rid).depth })).when
-          (w.k.getR rid).isAof (·.pushUnLockAof rid (w.k.getR rid).cmd false false AOF_EXPRIED)).modK (·.removeLock rid)) (some rid) := by
-        have := nz_removeLock n3.nd rid n3.nz
-        exact ⟨this.1, this.2⟩
-      have c4 : CurLive ((((w.modR rid (fun r => { r with expried := true })).modK (fun k => { k with locked := k.locked - (w.k.getR rid).depth })).when
-          (w.k.getR rid).isAof (·.pushUnLockAof rid (w.k.getR rid).cmd false false AOF_EXPRIED)).modK (·.removeLock rid)).k :=
-        CurLive.removeLock c3 rid (hasRec_current l4)
-      obtain ⟨m1, m2, _⟩ := removeLock_keep zero_nonneg l3.rc rid rid hk3.1 (wheel_of_e hk3.2)
-      have t5 := tight_dropE l4 n4 c4 (recs_ne_of_hasRec m1) ⟨m1, by
-        show ((((w.modR rid (fun r => { r with expried := true })).modK (fun k => { k with locked := k.locked - (w.k.getR rid).depth })).when
-          (w.k.getR rid).isAof (·.pushUnLockAof rid (w.k.getR rid).cmd false false AOF_EXPRIED)).k.removeLock rid |>.getR rid).eSched.isSome = true
-        rw [m2]; exact hk3.2⟩ (removeLock_depth _ rid m1)
-      exact good_finish t5 _ _ _ _ _
+    · exact good_finish (tight_expire_release g cl rid hs) _ _ _ _ _
 
 end Slock.Engine2
